@@ -35,6 +35,25 @@ class Ev:
     "Trk": [("q", "int")],
 })
 
+# the same classes WITHOUT postponed annotations: forward references are written as quoted names, also inside generics
+MODELS["fwdref"] = ("from typing import *\n" + '''
+class Ev:
+    def a(self) -> float: ...
+    def n(self) -> int: ...
+    def flag(self) -> bool: ...
+    def name(self) -> str: ...
+    def untyped(self): ...
+    def jets(self) -> Iterable["Jet"]: ...
+    def lead(self) -> "Jet": ...
+class Jet:
+    def pt(self) -> float: ...
+    def ntrk(self) -> "int": ...
+    def trks(self) -> "Iterable[Trk]": ...
+    def good(self) -> bool: ...
+class Trk:
+    def q(self) -> int: ...
+''', MODELS["plain"][1])
+
 MODELS["inherit"] = (HEADER + '''
 class TrkBase:
     def q(self) -> int: ...
@@ -255,6 +274,24 @@ _LOADS = [0]
 def load(name):
     """exec the model in a real (registered) module so that typing.get_type_hints can resolve
     the string annotations of its classes"""
+    import sys
+    import types
+
+    src, desc = MODELS[name]
+    if name == "fwdref":
+        # typing caches `Iterable["Jet"]` together with the class its forward reference was first resolved to: executing
+        # this source twice in one process would hand the second Jet class the first one's annotations (a python artefact
+        # of re-executing a module, nothing the library can do about) - the model is loaded once per process
+        if name not in _ONCE:
+            _ONCE[name] = _load_fresh(name)
+        return _ONCE[name]
+    return _load_fresh(name)
+
+
+_ONCE = {}
+
+
+def _load_fresh(name):
     import sys
     import types
 
